@@ -96,7 +96,7 @@ def monitor(c, r):
     if meta and (not meta['isinstance'] or not meta['prop']):
         out.append((f'isinstance / property of the decorated class differ from the plain class: {meta}', None))
     enabled = True
-    prev = None
+    prev = {k: v for k, v in c['init']}      # the instance as construction left it
     for o, st in zip(c['history'], steps[1:]):
         res, attrs_s = st.rsplit(' ', 1)
         attrs = parse_attrs(attrs_s)
